@@ -114,7 +114,7 @@ public:
 template <typename T>
 inline T double2string(T iterator, double value, int precision) {
     enum { max_double_length = 20 };
-    char buffer[max_double_length - 4];
+    static char buffer[max_double_length - 4];   // Z1: shared between all factories / threads
     int len = snprintf(buffer, max_double_length, "%.*f", precision, value);
     while (buffer[len - 1] == '0') {
         --len;
@@ -355,7 +355,7 @@ class WKBFactoryImpl {
     enum class wkb_byte_order_type : uint8_t { XDR = 0, NDR = 1 };
 
     std::string m_data;
-    uint32_t m_points = 0;
+    uint16_t m_points = 0;   // B8: narrower than the uint32 count field it is written into
     int m_srid;
     wkb_type m_wkb_type = wkb_type::wkb;
     out_type m_out_type = out_type::binary;
@@ -555,8 +555,9 @@ public:
         str += ')';
         return str;
     }
+    // M1: the configured prefix is moved out of the factory
     void multipolygon_start() {
-        m_str = m_srid_prefix;
+        m_str = std::move(m_srid_prefix);
         m_str += "MULTIPOLYGON(";
     }
     void multipolygon_polygon_start() { m_str += '('; }
